@@ -60,6 +60,9 @@ class Consts:
         self.server_name = "localhost"
         self.server_port = server_port
         self.hi_byte = hi_byte
+        # which of the repairs proposed in findings/C05.proposed.json the tree under test carries (the model
+        # follows repaired code): subset of {"wap", "gemini", "spartan"}; set when a fix: commit lands
+        self.fixes = []
 
     def tla_files(self, sets=None):
         """Generated constants module.  Sets of strings go here too: a TLC configuration file does not process
@@ -72,8 +75,9 @@ class Consts:
 
     def cfg_block(self):
         return ("  ProtoOrder <- K_ProtoOrder\n  WapTop = %s\n  QueryPrefix = %s\n  ServerName = %s\n  ServerPort = %d\n"
-                "  HiCode = \"%02X\"\n" % (json.dumps(self.waptop), json.dumps(self.query_prefix),
-                                            json.dumps(self.server_name), self.server_port, self.hi_byte))
+                "  HiCode = \"%02X\"\n  Fixes = {%s}\n" % (json.dumps(self.waptop), json.dumps(self.query_prefix),
+                                                          json.dumps(self.server_name), self.server_port, self.hi_byte,
+                                                          ", ".join(json.dumps(x) for x in self.fixes)))
 
 
 # ---------------------------------------------------------------------------------------------------
